@@ -15,6 +15,7 @@ import (
 	"path"
 	"path/filepath"
 	"regexp"
+	"sort"
 	"strings"
 
 	"dario.cat/mergo"
@@ -336,17 +337,25 @@ func mergePrefixesSuffixes(target *Parser, source *Parser, out *bytes.Buffer) (*
 
 func expandDefinitions(src *bytes.Buffer, variables map[string]string) *bytes.Buffer {
 	logger.Trace().Msgf("expanding definitions in: %v", src.String())
+	// Iterate in a fixed order, map iteration order is random and the result of
+	// cyclic or computed references would otherwise change from run to run
+	names := make([]string, 0, len(variables))
+	for name := range variables {
+		names = append(names, name)
+	}
+	sort.Strings(names)
 	// Definitions can contain definitions themeselves
-	for needle, replacement := range variables {
-		needle := "{{" + needle + "}}"
-		for sourceName, source := range variables {
-			variables[sourceName] = strings.ReplaceAll(source, needle, replacement)
+	for _, name := range names {
+		needle := "{{" + name + "}}"
+		replacement := variables[name]
+		for _, sourceName := range names {
+			variables[sourceName] = strings.ReplaceAll(variables[sourceName], needle, replacement)
 		}
 	}
 	// Now replace definitions in the rest of the file
-	for needle, replacement := range variables {
-		needle := "{{" + needle + "}}"
-		src = bytes.NewBuffer(bytes.ReplaceAll(src.Bytes(), []byte(needle), []byte(replacement)))
+	for _, name := range names {
+		needle := "{{" + name + "}}"
+		src = bytes.NewBuffer(bytes.ReplaceAll(src.Bytes(), []byte(needle), []byte(variables[name])))
 	}
 	// After all replacements, check if we have dangling names around. They mean that no definition was created
 	// yet, or there is a typo.
